@@ -89,6 +89,8 @@ func (tw *TimerWheel[K, V]) spec_findIndex_loop1(i int, duration int64, expire i
 func (tw *TimerWheel[K, V]) fspec_expire_remove(entry *Entry[K, V], reason RemoveReason) {
 	requires("locked", heldPolicy())
 	requires("reason", entry != nil && reason == EXPIRED)
+	// the deadline the wheel has just read from the entry is not after wheel time
+	requires("deadline_reached", loaded(entry.expire.Load()) <= tw.nanos)
 	modifies("Entry.flag.Flags", "Entry.meta.prev", "Entry.meta.next", "Entry.meta.wheelPrev", "Entry.meta.wheelNext", "List.len", "List.count", "TinyLfu.weightedSize",
 		"gh.po_in", "gh.po_ord", "gh.po_win", "gh.po_word", "mapdom<map[K]*Entry>", "mapval<map[K]*Entry>", "maplen<map[K]*Entry>", "gh.owned", "gh.now", "Entry.value", "gh.notified")
 }
